@@ -50,3 +50,13 @@ pub fn is_keyword(ident: &str, dialect: Dialect) -> bool {
 pub fn deduplicate_select_items(items: Vec<(String, Vec<String>)>) -> Vec<usize> {
     super::gen_projection::verif_dedup(items)
 }
+
+/// `translate_wildcards` on plain data: `decls` = `(cid, riid, is_wildcard)` of the relation columns,
+/// `instances` = `(riid, original_cids)`; returns the output cids and the sorted exclusions per star.
+pub fn translate_wildcards(
+    cols: Vec<usize>,
+    decls: Vec<(usize, usize, bool)>,
+    instances: Vec<(usize, Vec<usize>)>,
+) -> (Vec<usize>, Vec<(usize, Vec<usize>)>) {
+    super::gen_projection::verif_wildcards(cols, decls, instances)
+}
